@@ -110,6 +110,35 @@ def _ast_facts(D):
     return recv, budget_port, caught
 
 
+def _server_facts():
+    """(A) `self.interfaces = {}` inside the restart loop of Server.run, (B) the UDPListener gets the bound ports
+    (`iface.port`) or `list(self.interfaces)`, (C) Server.restart shuts `self.discovery` down"""
+    import frappy.server as S
+    tree = ast.parse(inspect.getsource(S.Server))
+    reset = bound = closes = False
+    known_arg = False
+    for fn in ast.walk(tree):
+        if isinstance(fn, ast.FunctionDef) and fn.name == 'run':
+            for loop in ast.walk(fn):
+                if isinstance(loop, ast.While):
+                    for node in ast.walk(loop):
+                        if isinstance(node, ast.Assign) and isinstance(node.value, ast.Dict) and not node.value.keys \
+                                and any(ast.unparse(t) == 'self.interfaces' for t in node.targets):
+                            reset = True
+            for node in ast.walk(fn):
+                if isinstance(node, ast.Call) and ast.unparse(node.func) == 'UDPListener' and len(node.args) >= 3:
+                    arg = ast.unparse(node.args[2])
+                    if arg == 'list(self.interfaces)':
+                        known_arg = True
+                    elif 'iface.port' in arg and 'self.interfaces.items()' in arg:
+                        known_arg = bound = True
+        if isinstance(fn, ast.FunctionDef) and fn.name == 'restart':
+            for node in ast.walk(fn):
+                if isinstance(node, ast.Call) and ast.unparse(node.func) == 'self.discovery.shutdown':
+                    closes = True
+    return reset, bound, closes, known_arg
+
+
 def generate():
     import frappy.protocol.discovery as D
     from frappy.server import Server
@@ -139,5 +168,13 @@ def generate():
         f'def catchesRecursionError : Bool := {catches(RecursionError)}',
         f'def catchesTypeError : Bool := {catches(TypeError)}',
         'def serverSchemes : List (List Char) := ' + llist(lchars(s) for s in Server.INTERFACES),
+    ]
+    reset, bound, closes, known_arg = _server_facts()
+    out += [
+        '-- frappy/server.py: Server.run / Server.restart',
+        f'def interfacesResetPerRound : Bool := {"true" if reset else "false"}',
+        f'def announcesBoundPort : Bool := {"true" if bound else "false"}',
+        f'def restartClosesDiscovery : Bool := {"true" if closes else "false"}',
+        f'def listenerArgumentRecognised : Bool := {"true" if known_arg else "false"}',
     ]
     return out
